@@ -26,6 +26,8 @@ const (
 	invLTLen                 // φ <= len(s) − 1
 	invHullLo                // φ >= base + k
 	invHullHi                // φ <= base + k
+	invTripHi                // φ <= e + k·len(s)   (range-over-string trip bound)
+	invTripLo                // φ >= e + k·len(s)   (k <= 0)
 )
 
 type invariant struct {
@@ -94,6 +96,10 @@ func (iv *invariant) goals(c *Ctx, repl, repl2 ssa.Value) []lin.Con {
 		return []lin.Con{lin.GE(x, c.quant(iv.e, isLen).Add(lin.KB(iv.k)))}
 	case invHullHi:
 		return []lin.Con{lin.LE(x, c.quant(iv.e, isLen).Add(lin.KB(iv.k)))}
+	case invTripHi:
+		return []lin.Con{lin.LE(x, c.quant(iv.e, isLen).Add(c.LenOf(iv.s).Scale(iv.k)))}
+	case invTripLo:
+		return []lin.Con{lin.GE(x, c.quant(iv.e, isLen).Add(c.LenOf(iv.s).Scale(iv.k)))}
 	case invLinear:
 		isLen2 := phiIsLen(iv.phi2)
 		var y lin.Form
@@ -381,6 +387,65 @@ func (fi *FuncInfo) headerInvariants(hb *ssa.BasicBlock) {
 				}
 			}
 			sync()
+		}
+	}
+	// range-over-string loops: every iteration consumes at least one byte of
+	// the string, so the body runs at most len(s) times; a counter that every
+	// back edge changes by a constant in [lo, hi] stays within
+	// entry + min(lo,0)·len(s) .. entry + max(hi,0)·len(s).
+	if isLoop && len(entries) == 1 {
+		var str ssa.Value
+		for _, in := range hb.Instrs {
+			if nx, ok := in.(*ssa.Next); ok && nx.IsString {
+				if rg, ok := nx.Iter.(*ssa.Range); ok && definedAbove(rg.X, hb) {
+					str = rg.X
+				}
+			}
+		}
+		if str != nil {
+			added := false
+			for _, b := range phis {
+				if phiIsLen(b) {
+					continue
+				}
+				var lo, hi *big.Int
+				ok := true
+				for _, i := range backs {
+					ec := fi.CtxEdge(hb.Preds[i], hb)
+					ec.noInv = true
+					d := ec.Lin(b.Edges[i]).Sub(ec.phiTerm(b))
+					kv, isK := d.ConstVal()
+					if !isK {
+						ok = false
+						break
+					}
+					if lo == nil || kv.Cmp(lo) < 0 {
+						lo = kv
+					}
+					if hi == nil || kv.Cmp(hi) > 0 {
+						hi = kv
+					}
+				}
+				if !ok || lo == nil {
+					continue
+				}
+				zero := big.NewInt(0)
+				if hi.Sign() < 0 {
+					hi = zero
+				}
+				if lo.Sign() > 0 {
+					lo = zero
+				}
+				if hi.BitLen() > 16 || lo.BitLen() > 16 {
+					continue
+				}
+				all = append(all, &invariant{kind: invTripHi, phi: b, e: b.Edges[entries[0]], k: hi, s: str, direct: true},
+					&invariant{kind: invTripLo, phi: b, e: b.Edges[entries[0]], k: lo, s: str, direct: true})
+				added = true
+			}
+			if added {
+				sync()
+			}
 		}
 	}
 	// constant strides → linear relations between pairs of φ
